@@ -256,7 +256,7 @@ def _mk_pursue(nsegs):
     tag = "x".join(map(str, nsegs))
 
     @proof(f"C01.pursue-path[{tag}]", "C01", funcs=["shape.FollowPath.pursue_path"], abstract=True, props=["C01", "C05"], max_paths=60000, timeout=900,
-           tier="quick" if sum(nsegs) <= 4 else "thorough")
+           tier="quick" if sum(nsegs) <= 5 else "thorough")
     def _(h):
         """path chasing with the point relations uninterpreted (`end point of segment s lies on curve j`, `equals the
         start point of segment (j, m)`): for the enumerated structure the loop always terminates, the result starts
@@ -326,3 +326,61 @@ def _mk_pursue(nsegs):
 _mk_pursue((2, 2))
 _mk_pursue((3, 2))
 _mk_pursue((2, 2, 2))
+
+
+@proof("C01.recombine-glue", "C01", funcs=["shape.FollowPath.or_shapes", "shape.FollowPath.and_shapes", "shape.FollowPath.follow_path"], abstract=True, props=["C01", "C05"])
+def _glue(h):
+    """or_shapes / and_shapes: every pair of boundary curves is split against each other first, then the pieces are
+    selected with the documented flags (union: closed=True, inside=False; intersection: closed=False, inside=True),
+    and paths are followed over `shapea.jordans + shapeb.jordans` in that order (the order the index offset assumes);
+    follow_path pursues every start index, removes rotations, builds one curve per remaining cycle."""
+    if not h.sym:
+        return
+    from shapepy.shape import SimpleShape, DisjointShape
+
+    def tri(o):
+        return SimpleShape(JordanCurve.from_vertices([(o, 0), (o + 3, 0), (o, 3)]))
+
+    A = object.__new__(DisjointShape)
+    A._DisjointShape__subshapes = (tri(0), tri(10))
+    B = tri(1)
+    for name, fn, flags in (("or", FollowPath.or_shapes, (True, False)), ("and", FollowPath.and_shapes, (False, True))):
+        log = []
+
+        def stub_split(ja, jb):
+            log.append(("split", ja, jb))
+
+        def stub_mid(sa, sb, closed, inside):
+            log.append(("mid", sa, sb, closed, inside))
+            return ((0, 1), (2, 0))
+
+        def stub_follow(jordans, idx):
+            log.append(("follow", tuple(jordans), idx))
+            return ("J1",)
+
+        with h.stubs({(FollowPath, "split_two_jordans"): staticmethod(stub_split), (FollowPath, "midpoints_shapes"): staticmethod(stub_mid), (FollowPath, "follow_path"): staticmethod(stub_follow)}):
+            r = fn(A, B)
+        splits = [(x[1], x[2]) for x in log if x[0] == "split"]
+        h.ensure(f"{name}-splits-every-pair-of-curves-first", len(splits) == 2 and all(any(a is ja and b is B.jordans[0] for a, b in splits) for ja in A.jordans) and [x[0] for x in log][:2] == ["split", "split"])
+        mids = [x for x in log if x[0] == "mid"]
+        h.ensure(f"{name}-selects-pieces-with-the-documented-flags", len(mids) == 1 and mids[0][1] is A and mids[0][2] is B and (mids[0][3], mids[0][4]) == flags)
+        fol = [x for x in log if x[0] == "follow"]
+        h.ensure(f"{name}-follows-paths-over-a-then-b", len(fol) == 1 and len(fol[0][1]) == 3 and all(x is y for x, y in zip(fol[0][1], tuple(A.jordans) + tuple(B.jordans))) and fol[0][2] == ((0, 1), (2, 0)))
+        h.ensure(f"{name}-returns-the-followed-curves", r == ("J1",))
+    # follow_path
+    log = []
+    cycles = {(0, 0): ((0, 0), (1, 0)), (1, 0): ((1, 0), (0, 0)), (2, 1): ((2, 1),)}
+
+    def stub_pursue(ij, iseg, jordans):
+        log.append(("pursue", ij, iseg))
+        return cycles[(ij, iseg)]
+
+    def stub_build(jordans, matrix):
+        log.append(("build", tuple(matrix)))
+        return ("curve", tuple(matrix))
+
+    js = tuple(A.jordans) + tuple(B.jordans)
+    with h.stubs({(FollowPath, "pursue_path"): staticmethod(stub_pursue), (FollowPath, "indexs_to_jordan"): staticmethod(stub_build)}):
+        out = FollowPath.follow_path(js, ((0, 0), (1, 0), (2, 1)))
+    h.ensure("follow_path-pursues-every-start-index", [x[1:] for x in log if x[0] == "pursue"] == [(0, 0), (1, 0), (2, 1)])
+    h.ensure("follow_path-one-curve-per-cycle-up-to-rotation", out == (("curve", ((0, 0), (1, 0))), ("curve", ((2, 1),))))
